@@ -38,10 +38,14 @@ KNOWN_CYCLES = [
 
 
 def corpus(seed, n):
+    """known cycling input of the pinned snapshot + random near-equilibrium states (permeate temperature just below the feed
+    temperature, large permeance ratios), where the fixed-point map loses contractivity"""
     rng = random.Random(seed); out = list(KNOWN_CYCLES)
     names = [k for k, _ in builtin_mixtures()]
     while len(out) < n:
-        T = rng.uniform(300, 395)
-        out.append(dict(builtin=rng.choice(names), model=rng.choice(['NRTL', 'UNIQUAC']), mode='temperature', x=rng.uniform(0.02, 0.98), T=T,
-                        P1=10 ** rng.uniform(-5, -1), P2=10 ** rng.uniform(-7, -2), prec=10 ** rng.uniform(-8, -4), Tp=rng.uniform(T - 60, T - 1)))
+        T = rng.uniform(295, 395)
+        near = rng.random() < 0.7
+        out.append(dict(builtin=rng.choice(names), model=rng.choice(['NRTL', 'UNIQUAC', 'UNIQUAC']), mode='temperature', x=rng.uniform(0.02, 0.98), T=T,
+                        P1=10 ** rng.uniform(-4, 0), P2=10 ** rng.uniform(-6, -1), prec=10 ** rng.uniform(-8, -4),
+                        Tp=rng.uniform(T - 12, T - 0.3) if near else rng.uniform(T - 60, T - 1)))
     return out
